@@ -252,7 +252,9 @@ pub fn replay(info: &LangInfo, case: &Value, oracle: Oracle) -> Vec<String> {
         let mut old = tree.clone();
         old.edit(&ie);
         let last = k + 1 == edits.len();
+        if last && std::env::var("VF_PARSE_LOG").is_ok() { parser.set_logger(Some(Box::new(|t, m: &str| { if t == tree_sitter::LogType::Parse { println!("  log: {}", m); } }))); }
         let inc = chunked_parse(&mut parser, &new_text, Some(&old), if last { chunk } else { 0 }).unwrap();
+        parser.set_logger(None);
         if last {
             println!("new text: {:?}", String::from_utf8_lossy(&new_text));
             println!("incremental: {}", inc.root_node().to_sexp());
